@@ -27,7 +27,8 @@ void fibre_scheduler_main_loop()
 	while (true) {
 		uint32_t sleep_until = fibre_scheduler_next(time_now());
 		int32_t sleep_interval = cyclecmp32(sleep_until, time_now());
-		sleep_interval = sleep_interval < 1000 ? sleep_interval : 50000;
+		/* poll at least every 50ms but never sleep through the next wakeup */
+		sleep_interval = sleep_interval < 50000 ? sleep_interval : 50000;
 		if (sleep_interval > 0)
 			usleep(sleep_interval);
 	}
